@@ -46,7 +46,7 @@ struct EpCfg {
     std::vector<uint16_t> groups;         // TLS 1.3 / ECDHE groups (named group ids)
     int key_shares = 0;
     std::vector<uint16_t> sigalgs;
-    bool send_sni = false;                // client: put the expected name into a server_name extension (as applications do)
+    int send_sni = 0;                     // client: 1 = put the expected name into a server_name extension (as applications do); 2 = server_name + ALPN (a two-entry extension list); 3 = + a private extension
     int max_frag = 0;                     // client: request this max_fragment_length (512, 1024, 2048, 4096); 0 = none
     int ec_flags = 0;
     sslSessionId_t *sid = nullptr;        // client: durable resumption state
@@ -71,6 +71,7 @@ class MxEndpoint {
     std::vector<ApiEvent> events;
     bool complete = false;                // HANDSHAKE_COMPLETE seen or IsComplete() observed true
     int complete_event = -1;
+    long complete_pending = -1;      // bytes of the output buffer still unsent when SentData reported HANDSHAKE_COMPLETE (-1: not reported by SentData)
     bool got_error = false;               // an API call returned < 0 (D1)
     int first_error = 0;
     int first_error_alive = 0;            // first negative return while the session was not yet dead by another cause
